@@ -90,36 +90,13 @@ theorem readcurrent_checked (E : Env) (k : Kind) (base : Hist) (hb : Sorted base
   have hi := Proofs.StoreRules.reachable_inv E k base hb s h
   refine ⟨?_, hi.checked, ?_⟩
   · intro t oid serial ho
-    have hout := Proofs.StoreRules.step_check_out E k base s hi t oid serial
-    rw [ho] at hout
-    by_cases hl : s.lock = some t
-    · rw [if_pos hl] at hout
-      refine ⟨hl, ?_⟩
-      cases hc : currentTid s.view oid with
-      | none => rw [hc] at hout; cases hout
-      | some ct =>
-        rw [hc] at hout
-        simp only at hout
-        by_cases he : ct = serial
-        · refine ⟨by rw [he], ?_⟩
-          rcases Proofs.StoreRules.step_check_sys E s t oid serial with h1 | ⟨_, h2⟩
-          · -- the step changed nothing although it returned ok: impossible
-            exfalso
-            have hcv := Proofs.StoreRules.curK_eq_view (k := s.kind) (hist := s.hist) (base := s.base)
-              hi.sorted oid
-            have hv : viewOf s.kind s.hist s.base = s.view := rfl
-            rw [hv, hc] at hcv
-            have : (step E s (.check t oid serial)).sys =
-                { s with checked := (oid, serial) :: s.checked } := by
-              simp only [step]
-              rw [if_pos hl, hcv]
-              simp only [he, if_true]
-            rw [this] at h1
-            have := congrArg Sys.checked h1
-            simp at this
-          · exact h2
-        · rw [if_neg he] at hout; cases hout
-    · rw [if_neg hl] at hout; cases hout
+    obtain ⟨hl, _, hc, hsys⟩ := Proofs.StoreRules.step_check_ok E s t oid serial ho
+    refine ⟨hl, ?_, hsys⟩
+    have hcv := Proofs.StoreRules.curK_eq_view (k := s.kind) (hist := s.hist) (base := s.base)
+      hi.sorted oid
+    have hv : viewOf s.kind s.hist s.base = s.view := rfl
+    rw [hv, hc] at hcv
+    exact hcv.symm
   · intro newer t older hs
     have hr := hi.rc
     rw [hi.kind, hi.base] at hr
@@ -142,17 +119,51 @@ theorem readcurrent_holds_until_finish (E : Env) (k : Kind) (base : Hist) (hb : 
 
 theorem retry_can_succeed (E : Env) (k : Kind) (base : Hist) (hb : Sorted base) (s : Sys)
     (h : Reachable E k base s) (t : TxnId) (hl : s.lock = some t) (oid : Oid) (ct : Tid)
-    (data : Record) (hc : currentTid s.view oid = some ct) :
+    (data : Record) (hc : currentTid s.view oid = some ct) (hnd : checkDeleted s oid = false) :
     (step E s (.check t oid ct)).out = .ok ∧ (step E s (.store t oid ct data)).out = .ok ∧
     (step E s (.store t oid ct data)).sys.staged =
       { oid := oid, base := ct, data := data, wanted := data, resolved := false } :: s.staged := by
   have hi := Proofs.StoreRules.reachable_inv E k base hb s h
   refine ⟨?_, ?_⟩
-  · rw [Proofs.StoreRules.step_check_out E k base s hi t oid ct, if_pos hl, hc]
+  · rw [Proofs.StoreRules.step_check_out E k base s hi t oid ct, if_pos hl, hnd, hc]
     simp
   · rw [Proofs.StoreRules.step_store_eq E k base s hi t hl]
     unfold Proofs.StoreRules.storeSpec
     rw [hc]
     simp [Proofs.StoreRules.acceptRes]
+
+theorem stale_write_over_uncreation_conflicts (E : Env) (base : Hist) (hb : Sorted base) (s : Sys)
+    (h : Reachable E (.simple .file) base s) (t : TxnId) (hl : s.lock = some t) (oid : Oid)
+    (serial ct : Tid) (data : Record) (hc : currentTid s.hist oid = some ct)
+    (hd : currentDeleted s.hist oid = true) (hne : serial ≠ ct) :
+    (step E s (.store t oid serial data)).out = .conflict ∧
+    (step E s (.store t oid serial data)).sys =
+      { s with cache := (step E s (.store t oid serial data)).sys.cache } := by
+  have hi := Proofs.StoreRules.reachable_inv E (.simple .file) base hb s h
+  have hv : s.view = s.hist := by
+    show viewOf s.kind s.hist s.base = s.hist
+    rw [hi.kind]; rfl
+  have hs : Sorted s.hist := by rw [← hv]; exact hi.sorted
+  rw [Proofs.StoreRules.step_store_eq E _ base s hi t hl]
+  apply Proofs.StoreRules.storeSpec_unresolvable E s oid serial ct data (by rw [hv]; exact hc) hne
+  right
+  apply tryToResolve_fails
+  right; right; right; right; left
+  show committedOf (loadSerialK s.kind s.hist s.base) oid ct none = none
+  rw [hi.kind]
+  exact Proofs.StoreRules.loadSerialFile_deleted hs hc hd
+
+theorem delete_checks_serial (E : Env) (s : Sys) (t : TxnId) (oid : Oid) (serial : Tid)
+    (hk : s.kind = .simple .file) (hl : s.lock = some t) :
+    (step E s (.delete t oid serial)).out =
+      match currentTid s.hist oid with
+      | none => .keyError
+      | some ct => if serial = ct then .ok else .conflict := by
+  simp only [step]
+  rw [if_pos hl, hk]
+  simp only
+  cases currentTid s.hist oid with
+  | none => rfl
+  | some ct => simp only; split <;> rfl
 
 end Proofs.C03Props
